@@ -228,6 +228,8 @@ func startsWithSign(node Node) bool {
 			default:
 				return false
 			}
+		case *IntegerLiteral: // the smallest integer is the one literal written with its sign.
+			return strings.HasPrefix(n.Literal(), "-")
 		case *InfixExpression:
 			node = n.Left
 		case *IndexExpression:
@@ -330,6 +332,16 @@ func (c Comment) PrettyPrint(out *PrintState) *PrintState {
 type IntegerLiteral struct {
 	Base
 	Val int64
+}
+
+// Only the smallest integer is written with a sign (-9223372036854775808 can't be minus an integer):
+// a space keeps it from joining a '-' printed just before (a - -9223372036854775808, compact form) into '--'.
+func (i IntegerLiteral) PrettyPrint(out *PrintState) *PrintState {
+	lit := i.Literal()
+	if lit != "" && lit[0] == '-' && out.last != "" && out.last[len(out.last)-1] == '-' {
+		out.Print(" ")
+	}
+	return out.Print(lit)
 }
 
 type FloatLiteral struct {
